@@ -1,15 +1,19 @@
 """Model side of the buffer checks: exhaustive TLC runs of specs/buffer/Buffer.tla (timed, with the
 contract monitor BufferContract composed in)."""
 
-ACTIONS = ['Submit', 'PFirst', 'PDrain', 'PGot', 'StartFunc', 'EndFunc', 'PCheck', 'Tick']
+ACTIONS = ['Submit', 'PFirst', 'PDrain', 'LoaderDone', 'PLoaded', 'GetTimeout', 'StartFunc', 'EndFunc', 'PCheck', 'Tick']
 WAITS = ['WaitCall', 'WaitJoin', 'WaitKick', 'WaitRet']
 
 PLAN = {
-    'C03': {'quick': [('BUF_3_d0', None), ('BUF_3_d3_f1', None), ('BUF_3_foreign', None), ('W_D10', 'Inv_C03')],
+    'C03': {'quick': [('BUF_3_d0', None), ('BUF_3_d3_f1', None), ('BUF_3_foreign', None), ('BUF_3_acf', None),
+                      ('BUF_3_eaa_f1', None), ('W_D10', 'Inv_C03'), ('W_NeverSlowLoad', 'NeverSlowLoad')],
             'thorough': [('BUF_3_d0', None), ('BUF_3_d3_f1', None), ('BUF_4_d3_f1', None), ('BUF_3_foreign', None),
-                         ('W_D10', 'Inv_C03')]},
-    'C07': {'quick': [('BUF_3_wT', None), ('BUF_2_wTF_f1', None), ('W_NeverFlush', 'NeverFlush')],
-            'thorough': [('BUF_3_wT', None), ('BUF_4_wT', None), ('BUF_2_wTF_f1', None), ('W_NeverFlush', 'NeverFlush')]},
+                         ('BUF_3_acf', None), ('BUF_3_cae', None), ('BUF_3_eaa_f1', None),
+                         ('W_D10', 'Inv_C03'), ('W_NeverSlowLoad', 'NeverSlowLoad')]},
+    'C07': {'quick': [('BUF_3_wT', None), ('BUF_2_wTF_f1', None), ('BUF_3_aaa_wT', None), ('BUF_3_cae_wF', None),
+                      ('W_NeverFlush', 'NeverFlush')],
+            'thorough': [('BUF_3_wT', None), ('BUF_4_wT', None), ('BUF_2_wTF_f1', None), ('BUF_3_aaa_wT', None),
+                         ('BUF_3_cae_wF', None), ('W_NeverFlush', 'NeverFlush')]},
     'C08': {'quick': [('BUF_3_d0', None), ('BUF_3_d3_f1', None), ('W_NeverBurst', 'NeverBurst'), ('W_NeverTwoCalls', 'NeverTwoCalls')],
             'thorough': [('BUF_3_d0', None), ('BUF_3_d3_f1', None), ('BUF_4_d3_f1', None), ('BUF_4_wT', None),
                          ('W_NeverBurst', 'NeverBurst'), ('W_NeverTwoCalls', 'NeverTwoCalls')]},
@@ -40,13 +44,24 @@ def _prep(sc, r):
     if sc.get('foreign') or sc.get('stalls') or str(sc.get('form', 'direct')).startswith('default'):
         return None
     prog = sc.get('prog', [])
-    if any(it['op'] not in ('call', 'wait') or it.get('submit_first') for it in prog):
+    def in_scope(it):
+        if it.get('submit_first'):
+            return False
+        if it['op'] in ('call', 'wait'):
+            return True
+        if it['op'] == 'await':       # an awaitable: result (or failure) after a delay on the grid
+            return it.get('fail') in (None, False, True) and not (it.get('delay', 0) * 1000) % UNIT
+        if it['op'] == 'map':         # map of an empty list
+            return it.get('kind', 'list') == 'list' and not it['xs'] and it.get('fail_at') is None and not it.get('step')
+        return False
+    if not all(in_scope(it) for it in prog):
         return None
     func = sc.get('func', {})
     if func.get('durs') or func.get('fail_cancel') or (sc['timeout'] * 1000) % UNIT or (func.get('dur', 0) * 1000) % UNIT:
         return None
-    calls = [it for it in prog if it['op'] == 'call']
+    calls = [it for it in prog if it['op'] != 'wait']
     waits = [it for it in prog if it['op'] == 'wait']
+    byid = {it['id']: it for it in calls}
     if not calls or len(calls) > 5 or len(waits) > 2:
         return None
     # the model numbers the arguments 1..N in submission order and the waits 1..W
@@ -62,7 +77,7 @@ def _prep(sc, r):
             return None
         d = {k: v for k, v in e.items() if k != 'n' or e['e'] in ('FuncStart', 'FuncEnd')}
         d['t'] = e['t'] // UNIT
-        if e['e'] in ('Submit', 'Produced', 'ProducerDone'):
+        if e['e'] in ('Submit', 'Produced', 'ProducerDone', 'ProducerFailed'):
             d['id'] = idmap[e['id']]
             if e['e'] == 'Produced':
                 xmap[e['x']] = d['id']
@@ -78,7 +93,12 @@ def _prep(sc, r):
     for e in ev:
         if e['e'] == 'WaitCall':
             cancel[e['w']] = bool(e['cancel'])
-    return {'events': ev, 'n': len(order), 'cancel': cancel,
+    kinds, loads = {}, {}
+    for sid, i in idmap.items():
+        it = byid[sid]
+        kinds[i] = {'call': 'call', 'map': 'empty'}.get(it['op']) or ('afail' if it.get('fail') else 'await')
+        loads[i] = int(round(it.get('delay', 0) * 1000)) // UNIT if it['op'] == 'await' else 0
+    return {'events': ev, 'n': len(order), 'cancel': cancel, 'kinds': kinds, 'loads': loads,
             'consts': {'TAU': int(sc['timeout'] * 1000) // UNIT, 'Dur': int(func.get('dur', 0) * 1000) // UNIT,
                        'FailSet': sorted(func.get('fail', [])),
                        'MaxTime': max([e['t'] for e in ev if e['e'] in ('Submit', 'WaitCall')] + [0])}}
@@ -88,10 +108,14 @@ def _one(p):
     from harness import tlc
     c = p['consts']
     cancel = ' @@ '.join('(%d :> %s)' % (w, 'TRUE' if v else 'FALSE') for w, v in sorted(p['cancel'].items())) or '[w \\in {} |-> TRUE]'
-    mod = ('---- MODULE MC_BufferConform ----\nEXTENDS BufferConform\nCElems == 1..%d\nCWaits == %s\nCCancel == %s\nCFail == {%s}\n====\n'
-           % (p['n'], '{' + ', '.join(str(w) for w in sorted(p['cancel'])) + '}', cancel, ', '.join(str(x) for x in c['FailSet'])))
+    kinds = ' @@ '.join('(%d :> "%s")' % (i, k) for i, k in sorted(p['kinds'].items()))
+    loads = ' @@ '.join('(%d :> %d)' % (i, k) for i, k in sorted(p['loads'].items()))
+    mod = ('---- MODULE MC_BufferConform ----\nEXTENDS BufferConform\nCElems == 1..%d\nCWaits == %s\nCCancel == %s\nCFail == {%s}\n'
+           'CKinds == %s\nCLoads == %s\n====\n'
+           % (p['n'], '{' + ', '.join(str(w) for w in sorted(p['cancel'])) + '}', cancel, ', '.join(str(x) for x in c['FailSet']),
+              kinds, loads))
     cfg = ('INIT CInit\nNEXT CNext\nCONSTANTS\n Elems <- CElems\n TAU = %d\n Dur = %d\n FailSet <- CFail\n MaxTime = %d\n Waits <- CWaits\n CancelOf <- CCancel\n'
-           ' Foreign = FALSE\n ClearInputs = TRUE\nCONSTRAINT Reached\nCONSTRAINT NotYetAccepted\nCHECK_DEADLOCK FALSE\n' % (c['TAU'], c['Dur'], c['MaxTime']))
+           ' Foreign = FALSE\n ClearInputs = TRUE\n KindOf <- CKinds\n LoadOf <- CLoads\nCONSTRAINT Reached\nCONSTRAINT NotYetAccepted\nCHECK_DEADLOCK FALSE\n' % (c['TAU'], c['Dur'], c['MaxTime']))
     work = tlc.scratch('bufconf-')
     try:
         tf = _os.path.join(work, 'trace.json')
@@ -119,8 +143,12 @@ def conformance(ctx, executed, limit=40):
         p = _prep(sc, r)
         if p is not None and len(p['events']) <= 60:
             todo.append(p)
+    # half of the sample: programs with producers other than plain calls (shortest first within each class)
     todo.sort(key=lambda p: len(p['events']))
-    todo = todo[:limit]
+    a = [p for p in todo if set(p['kinds'].values()) != {'call'}]
+    b = [p for p in todo if set(p['kinds'].values()) == {'call'}]
+    na = min(len(a), max(limit // 2, limit - len(b)))
+    todo = a[:na] + b[:limit - na]
     acc = und = 0
     drift = []
     with _TPE(8) as ex:
@@ -138,7 +166,7 @@ def conformance(ctx, executed, limit=40):
                 drift.append({'matched_prefix': best - 1, 'of': n - 1, 'first_unexplained': p['events'][best - 1]})
     ctx.cov['conformance'] = {'traces_checked': len(todo), 'accepted': acc, 'drift': len(drift), 'undecided': und,
                               'drift_samples': drift[:3],
-                              'what': 'recorded executions (plain calls + wait() on the loop thread) validated against the timed model '
+                              'what': 'recorded executions (plain calls, awaitables with a delay / failing, empty maps + wait() on the loop thread) validated against the timed model '
                                       'Buffer.tla with silent processing steps; projected state (queue length, all-processed flag) compared '
                                       'at every observable event'}
     ctx.cov['conformance_divergences'] = len(drift)
